@@ -26,7 +26,10 @@ RULE = (
     "histories are generated from one SplitMix64 state: t in {3,4,5}, in-order optimisation on/off, dict or set API, "
     "int / str / dns.name.Name keys through an order-preserving encoding, key universes of 6..260 keys that always contain the falsy key (0, '', the empty name), phases (build ascending/descending/alternating/random, churn, drain in several "
     "orders), freeze/clone points with mutations of the original and of every clone along shared paths, 0..3 live "
-    "registered cursors with seek/next/prev/park kept across mutations, a dedicated stream of cursor-vs-mutation histories simulated while generating (delete the element just returned, insert/delete next to the anchor, first mutation of a fresh clone under an open cursor), plus a malformed stream (bad handles, clone "
+    "registered cursors with seek/next/prev/park kept across mutations, a dedicated stream of cursor-vs-mutation histories simulated while generating (delete the element just returned, insert/delete next to the anchor, a mutation right after a seek, first mutation of a fresh clone under an open cursor), "
+    "a stream of `for k in tree` iterators stepped between mutations of the same tree (incl. the mixins' pop()/popitem()), trees made with the constructors' default arguments (t = 127) driven past their first root split, "
+    "every public spelling of an operation chosen deterministically per op (d[k]=v / insert_element with and without the in_order argument, del / discard / delete_key / pop / popitem, seek with and without `before`, copy.copy / original=), "
+    "falsy keys and falsy dict values (0, None), plus a malformed stream (bad handles, clone "
     "of a mutable tree, delete_exact of foreign elements, use of closed cursors, mutation of frozen trees); a case is "
     "non-trivial if it performs at least one mutation and its key (parameters + op list) is new"
 )
@@ -38,7 +41,8 @@ ASSUMPTIONS = [
     "the copy-on-write mechanism is modelled twice: Model.BTree (persistent values; L1-L5) and Model.BTreeCow (heap of cells with "
     "creator tokens, copying exactly where the code copies); the refinement between them (cow_step_refines, cow_run_refines, "
     "clone_isolated_mech, cow_writes_only_own_cells) is proved, both are tied to the code by correspondence (c19.hist, c19.cow)",
-    "the session-level refinement theorem is stated for the repaired _delete (collapse_always = true, the code after f381413); "
+    "the session-level refinement theorem is stated for the repaired _delete (collapse_always = true, the code after f381413); the repaired "
+    "behaviour (also 90d7725: collapse when delete_exact raised) is the reference of the correspondence check; "
     "the per-operation simulation lemmas hold for both variants",
     "cursors that are not registered with their tree (no `with` block) and are used across a mutation are undefined "
     "behaviour by the library's documentation and are not exercised",
@@ -52,9 +56,11 @@ LEVEL = {
             "of the shape invariant (occupancy, |children| = |elts|+1, uniform leaf depth) for every t >= 3.  The model is "
             "tied to the code by a differential correspondence check on whole histories comparing the full tree shape "
             "after every operation, and by _MIN/_MAX regenerated from the working tree.",
-    "note": "Layers L1-L5 are proved (lean/Props/C19.lean). The deletion layer exposes a defect of the code as shipped (an internal "
-            "root left without elements by a deletion of an absent key, later IndexError): full theorem for the intended root "
-            "collapse, guarded theorem + counterexamples for the shipped one; the harness probes which variant the code implements. "
+    "note": "Layers L1-L5 are proved (lean/Props/C19.lean). The deletion layer exposed two defects of the code as pinned (an internal "
+            "root left without elements by a deletion of an absent key, or by a delete_exact that raised; later IndexError), both repaired in "
+            "/repo (f381413, 90d7725): full theorems (delete_refines, delete_exact_refines) for the repaired root collapse, which is the "
+            "reference of the correspondence check (a tree without the repairs disagrees with the model and fails the oracle); guarded theorem "
+            "+ counterexamples about the unrepaired variants of the model are kept. "
             "Clone isolation is proved at mechanism level on a second model (heap of cells with creator tokens) that is itself tied to the "
             "code by comparing node identities and creator tokens after every mutation.",
     "technique": "Lean 4 proof (refinement + inductive invariant over height) + model-vs-implementation correspondence on histories",
@@ -795,6 +801,9 @@ class Runner:
                 return "ok"
             except ValueError:
                 return "err ValueError"
+            except Exception as e:  # the constructor's own guard is ValueError; anything else is a foreign exception
+                self.fail(f"C19/constructor/exception:{type(e).__name__}", f"t={self.t}: {type(e).__name__} instead of ValueError", 0)
+                return "err " + type(e).__name__
         T0 = self.new_tree(None, self.io)
         self.trees.append(T0)
         self.in_order_of.append(self.io)
@@ -1606,7 +1615,9 @@ PROVED_LAYERS = {
     "proved": [
         "L1 get_refines, inorder_sorted, len_exact",
         "L2 insert_refines / insert_refines_node: Wf preserved, flat = insSorted, replaced element returned, every t >= 3, in-order optimisation on and off",
-        "L3 delete_refines (intended root collapse: full statement), delete_refines_partial (code as shipped, guarded), "
+        "L3 delete_refines (repaired root collapse: full statement), delete_exact_refines / delete_exact_failure_keeps_contents "
+        "(delete_exact: the stored element -> plain deletion; any other element -> ValueError, well-formed tree, root condition, same listing "
+        "and size), delete_exact_unrepaired_loses_rootOk (the repair 90d7725 is needed), delete_refines_partial (code as pinned, guarded), "
         "delete_refines_or_indexError (code as shipped, every well-formed tree: refinement or IndexError with the tree unchanged), "
         "delete_asShipped_loses_rootOk and delete_asShipped_indexError (counterexamples by evaluation)",
         "L4 in_order_opt_refines (the optimisation changes the shape only)",
@@ -1621,6 +1632,7 @@ PROVED_LAYERS = {
     ],
     "tie_only": [
         "garbage (cells dropped from every tree) and Python object identity of elements are outside the heap model",
-        "delete_exact error paths (ValueError): correspondence only",
+        "the amount of space optimisation of in-order insertion (how full left siblings end up) and the exact set of nodes copied are "
+        "properties of the model tied by correspondence only (shape / node-identity comparison), not stated as theorems about occupancy",
     ],
 }
